@@ -473,6 +473,25 @@ def lower6(ctx) -> List[Ob]:
                                     adds = [c2 for c2 in method_calls(m.node, "add") if A.unparse(c2.func.value) == R]
                                     if seeds and adds:
                                         reason = f"only blocks outside '{R}' are deleted (filter in the iterable) and '{R}' is the closure of a work-list seeded with the entry {entry!r}"
+            # (a') the same exclusion anywhere in the conditions under which the deletion runs
+            if reason is None and kname:
+                from .ctrl import _guard_conditions
+
+                eqs = {f"{kname} == {entry!r}", f"{entry!r} == {kname}"}
+                nes = {f"{kname} != {entry!r}", f"{entry!r} != {kname}"}
+                for t_, pol_ in _guard_conditions(m.node, A.enclosing_stmt(d) or d):
+                    try:
+                        e_ = ast.parse(t_, mode="eval").body
+                    except SyntaxError:
+                        continue
+                    while isinstance(e_, ast.UnaryOp) and isinstance(e_.op, ast.Not):
+                        e_, pol_ = e_.operand, not pol_
+                    parts_or = [A.unparse(v_).replace('"', "'") for v_ in e_.values] if isinstance(e_, ast.BoolOp) and isinstance(e_.op, ast.Or) else [A.unparse(e_).replace('"', "'")]
+                    parts_and = [A.unparse(v_).replace('"', "'") for v_ in e_.values] if isinstance(e_, ast.BoolOp) and isinstance(e_.op, ast.And) else [A.unparse(e_).replace('"', "'")]
+                    if not pol_ and eqs & set(parts_or):
+                        reason = f"the deletion runs only when '{t_[:50]}' is false, which excludes the entry"
+                    if pol_ and nes & set(parts_and):
+                        reason = f"the deletion runs only under '{t_[:50]}'"
             if reason:
                 out.append(ok("LOWER-6", m.qualname, key, where, reason))
             else:
@@ -722,17 +741,62 @@ def lower12(ctx) -> List[Ob]:
     front = ctx.prog.cls(FRONT)
     CNT = "self.block_index"
 
-    def offset(e: ast.AST) -> Optional[int]:
+    def offset(e: ast.AST, aliases: Set[str]) -> Optional[Tuple[str, int]]:
+        """(base, k) when e is <counter> + k or <snapshot> + k"""
         if A.unparse(e) == CNT:
-            return 0
-        if isinstance(e, ast.BinOp) and isinstance(e.op, ast.Add) and A.unparse(e.left) == CNT and isinstance(e.right, ast.Constant) and isinstance(e.right.value, int):
-            return e.right.value
+            return ("cnt", 0)
+        if isinstance(e, ast.Name) and e.id in aliases:
+            return ("snap", 0)
+        if isinstance(e, ast.BinOp) and isinstance(e.op, ast.Add) and isinstance(e.right, ast.Constant) and isinstance(e.right.value, int):
+            b = offset(e.left, aliases)
+            if b is not None:
+                return (b[0], b[1] + e.right.value)
+        if isinstance(e, ast.BinOp) and isinstance(e.op, ast.Add) and isinstance(e.left, ast.Constant) and isinstance(e.left.value, int):
+            b = offset(e.right, aliases)
+            if b is not None:
+                return (b[0], b[1] + e.left.value)
+        return None
+
+    def offsets_of(value: ast.AST, aliases: Set[str]) -> Optional[List[Tuple[str, int]]]:
+        """offsets named by the right-hand side of an index assignment"""
+        o = offset(value, aliases)
+        if o is not None:
+            return [o]
+        if isinstance(value, (ast.Tuple, ast.List)) and value.elts:
+            os_ = [offset(x, aliases) for x in value.elts]
+            return os_ if all(x is not None for x in os_) else None  # type: ignore[return-value]
+        v = value
+        if isinstance(v, ast.Call) and isinstance(v.func, ast.Name) and v.func.id in ("tuple", "list") and len(v.args) == 1:
+            v = v.args[0]
+        if isinstance(v, ast.Call) and isinstance(v.func, ast.Name) and v.func.id == "range" and len(v.args) == 2:
+            lo, hi = offset(v.args[0], aliases), offset(v.args[1], aliases)
+            if lo is not None and hi is not None and lo[0] == hi[0] and hi[1] >= lo[1]:
+                return [(lo[0], k) for k in range(lo[1], hi[1])]
+        return None
+
+    def classify(st: ast.stmt, aliases: Set[str]):
+        if isinstance(st, ast.AugAssign) and isinstance(st.op, ast.Add) and A.unparse(st.target) == CNT and isinstance(st.value, ast.Constant) and isinstance(st.value.value, int):
+            return ("adv", st.value.value)
+        if isinstance(st, (ast.Assign, ast.AnnAssign)) and st.value is not None:
+            tg = st.targets[0] if isinstance(st, ast.Assign) else st.target
+            if A.unparse(tg) == CNT:
+                o = offset(st.value, aliases)
+                if o is not None:
+                    return ("adv", o[1])
+                return None
+            if isinstance(tg, ast.Name) and A.unparse(st.value) == CNT:
+                return ("snap", tg.id)
+            if isinstance(tg, (ast.Name, ast.Tuple, ast.List)) and all(isinstance(x, ast.Name) for x in (tg.elts if isinstance(tg, (ast.Tuple, ast.List)) else [tg])):
+                os_ = offsets_of(st.value, aliases)
+                if os_ is not None:
+                    return ("read", os_)
         return None
 
     for mname, m in sorted(front.methods.items()):
         reads = [n for n in A.walk_no_nested(m.node) if isinstance(n, ast.Attribute) and A.unparse(n) == CNT]
         if not reads:
             continue
+        writes = [n for n in reads if isinstance(n.ctx, ast.Store)]
         handled: Set[int] = set()
         for seq_owner in A.walk_no_nested(m.node):
             for fld in ("body", "orelse", "finalbody"):
@@ -741,43 +805,68 @@ def lower12(ctx) -> List[Ob]:
                     continue
                 i = 0
                 while i < len(seq):
-                    st = seq[i]
-                    offs = []
-                    j = i
-                    while j < len(seq) and isinstance(seq[j], (ast.Assign, ast.AnnAssign)) and seq[j].value is not None and offset(seq[j].value) is not None:
-                        offs.append(offset(seq[j].value))
-                        j += 1
-                    if not offs:
+                    aliases: Set[str] = set()
+                    c0 = classify(seq[i], aliases)
+                    if c0 is None:
                         i += 1
                         continue
-                    key = f"reserve {len(offs)} indices"
+                    # a run of index statements: snapshot(s), reads, one advance, reads through the snapshot
+                    j = i
+                    offs: List[int] = []
+                    advs: List[int] = []
+                    snaps: List[str] = []
+                    used_as_base: Set[str] = set()
+                    while j < len(seq):
+                        c = classify(seq[j], aliases)
+                        if c is None:
+                            break
+                        if c[0] == "snap":
+                            if advs:
+                                break
+                            aliases.add(c[1])
+                            snaps.append(c[1])
+                        elif c[0] == "adv":
+                            if advs:
+                                break
+                            advs.append(c[1])
+                            used_as_base |= {x.id for x in ast.walk(seq[j]) if isinstance(x, ast.Name) and x.id in aliases}
+                        else:
+                            if advs and any(b == "cnt" for b, _k in c[1]):
+                                break  # a read of the advanced counter belongs to the next reservation
+                            offs += [k for _b, k in c[1]]
+                            used_as_base |= {x.id for x in ast.walk(seq[j].value) if isinstance(x, ast.Name) and x.id in aliases}
+                        handled.update(id(x) for x in ast.walk(seq[j]))
+                        j += 1
+                    # `head_index = self.block_index` names index 0 itself unless the name is only the base of
+                    # later index arithmetic (`first = self.block_index; a, b = first, first + 1`)
+                    offs = [0 for a_ in snaps if a_ not in used_as_base] + offs
+                    st = seq[i]
                     where = ctx.where(m, st)
-                    for k in range(i, j):
-                        handled.update(id(x) for x in ast.walk(seq[k]))
-                    adv = seq[j] if j < len(seq) else None
-                    n_adv = None
-                    if isinstance(adv, ast.AugAssign) and isinstance(adv.op, ast.Add) and A.unparse(adv.target) == CNT and isinstance(adv.value, ast.Constant) and isinstance(adv.value.value, int):
-                        n_adv = adv.value.value
-                        handled.update(id(x) for x in ast.walk(adv))
-                    if sorted(offs) != list(range(len(offs))):
-                        out.append(bad("LOWER-12", m.qualname, key, where, f"the reserved offsets {offs} are not the distinct values 0..{len(offs) - 1}: two blocks of this construct share an index"))
-                    elif n_adv is None:
-                        out.append(bad("LOWER-12", m.qualname, key, where, "the counter is not advanced right after the indices are read: the next construct lowered (a nested statement or expression) is given the same indices"))
-                    elif n_adv < len(offs):
-                        out.append(bad("LOWER-12", m.qualname, key, where, f"{len(offs)} indices are reserved but the counter advances by {n_adv}: the last index is handed out again"))
-                    else:
-                        out.append(ok("LOWER-12", m.qualname, key, where, f"offsets {offs}, then {CNT} += {n_adv}"))
-                    i = j + 1
+                    if offs or advs:
+                        key = f"reserve {len(offs)} indices"
+                        n_adv = advs[0] if advs else None
+                        if sorted(offs) != list(range(len(offs))):
+                            out.append(bad("LOWER-12", m.qualname, key, where, f"the reserved offsets {offs} are not the distinct values 0..{len(offs) - 1}: two blocks of this construct share an index"))
+                        elif n_adv is None:
+                            out.append(bad("LOWER-12", m.qualname, key, where, "the counter is not advanced right after the indices are read: the next construct lowered (a nested statement or expression) is given the same indices"))
+                        elif n_adv < len(offs):
+                            out.append(bad("LOWER-12", m.qualname, key, where, f"{len(offs)} indices are reserved but the counter advances by {n_adv}: the last index is handed out again"))
+                        else:
+                            out.append(ok("LOWER-12", m.qualname, key, where, f"offsets {offs}, then {CNT} += {n_adv}"))
+                    i = max(j, i + 1)
         for r in reads:
             if id(r) in handled:
                 continue
-            par = A.parent(r)
             st = r
             while not isinstance(st, ast.stmt):
                 st = A.parent(st)
             # the initialisation in __init__ / transform
             if isinstance(st, (ast.Assign, ast.AnnAssign)) and isinstance(r.ctx, ast.Store) and isinstance(st.value, ast.Constant) and isinstance(st.value.value, int) and st.value.value >= 1:
                 out.append(ok("LOWER-12", m.qualname, "counter initialised", ctx.where(m, st), f"starts at {st.value.value} (0 is the entry block)", nontrivial=False))
+                continue
+            if not writes:
+                # a method that only looks at the counter (repr, debugging aids) cannot hand an index out twice
+                out.append(ok("LOWER-12", m.qualname, "read-only use: " + A.alpha_key(st)[:60], ctx.where(m, st), "the method never writes the counter", nontrivial=False))
                 continue
             out.append(bad("LOWER-12", m.qualname, "other use: " + A.alpha_key(st)[:80], ctx.where(m, st), f"'{A.unparse(st)[:70]}' uses the block counter outside the reserve-then-advance idiom"))
     return out
@@ -926,8 +1015,12 @@ def lower14(ctx) -> List[Ob]:
         if not fn.module.name.endswith("ast_transforms"):
             continue
         for st in A.walk_no_nested(fn.node):
-            if isinstance(st, ast.Assign) and len(st.targets) == 1 and isinstance(st.targets[0], ast.Subscript) and isinstance(st.targets[0].value, ast.Attribute) and st.targets[0].value.attr in ("jump_targets", "_jump_targets") and fn.name.startswith("prune"):
-                sites.append((fn, st))
+            if isinstance(st, ast.Assign) and len(st.targets) == 1 and isinstance(st.targets[0], ast.Subscript) and fn.name.startswith("prune"):
+                base_ = st.targets[0].value
+                if isinstance(base_, ast.Name):
+                    base_ = see_through(ctx, fn, base_) or base_
+                if isinstance(base_, ast.Attribute) and base_.attr in ("jump_targets", "_jump_targets"):
+                    sites.append((fn, st))
     fns = []
     for fn, st in sites:
         if fn not in fns:
